@@ -24,6 +24,19 @@ def main():
         print("/repo is not clean")
         return 2
     rows = []
+    # the evidence files describe the UNCHANGED tree: whatever the checks write while a seed is applied is thrown away
+    import shutil, tempfile
+    evbak = tempfile.mkdtemp(prefix="evidence-bak-")
+    shutil.copytree(os.path.join(VERIF, "evidence"), os.path.join(evbak, "evidence"))
+    try:
+        return run_all(seeds, opts, tier, rows)
+    finally:
+        shutil.rmtree(os.path.join(VERIF, "evidence"), ignore_errors=True)
+        shutil.copytree(os.path.join(evbak, "evidence"), os.path.join(VERIF, "evidence"))
+        shutil.rmtree(evbak, ignore_errors=True)
+
+
+def run_all(seeds, opts, tier, rows):
     for name in seeds:
         d = os.path.join(VERIF, "seeded", name)
         mp = os.path.join(d, "meta.json")
